@@ -108,6 +108,8 @@ type Resp struct {
 	SameReq bool                `json:"same_req,omitempty"`
 	SameW   bool                `json:"same_w,omitempty"`
 	Entry   map[string][]string `json:"entry,omitempty"`
+	ReqHdr  map[string][]string `json:"-"`
+	ReqLine string              `json:"-"`
 }
 
 func (r Resp) Sig() string {
@@ -140,6 +142,8 @@ type spy struct {
 	sameReq bool
 	sameW   bool
 	entry   http.Header
+	reqHdr  http.Header // the request's header map as the inner handler finds it
+	reqLine string      // method, target, protocol and host as the inner handler finds them
 	wantReq *http.Request
 	wantW   http.ResponseWriter
 	script  func(w http.ResponseWriter, r *http.Request)
@@ -152,6 +156,8 @@ func (s *spy) ServeHTTP(w http.ResponseWriter, r *http.Request) {
 	if rec, ok := w.(*Rec); ok {
 		s.entry = cloneHeader(rec.H)
 	}
+	s.reqHdr = cloneHeader(r.Header)
+	s.reqLine = reqLine(r)
 	if s.script != nil {
 		s.script(w, r)
 		return
@@ -177,7 +183,13 @@ func DoScript(wrap func(http.Handler) http.Handler, req Req, preset []HV, script
 		SameReq: sp.sameReq,
 		SameW:   sp.sameW,
 		Entry:   sp.entry,
+		ReqHdr:  sp.reqHdr,
+		ReqLine: sp.reqLine,
 	}
+}
+
+func reqLine(r *http.Request) string {
+	return fmt.Sprintf("%s %s %s host=%s tls=%v", r.Method, r.RequestURI, r.Proto, r.Host, r.TLS != nil)
 }
 
 // Server keeps the handler returned by ONE Wrap call and serves every request
